@@ -7,7 +7,7 @@ sys.path.insert(0,os.path.dirname(__file__))
 import selftest
 from concurrent.futures import ThreadPoolExecutor
 ROOT='/verif'
-extra={'C01-B':['C08'],'C20-B':['C17'],'C18-B':['C03'],'C02-A':[],'C07-B':['C11']}
+extra={'C06-B':['C17'],'C01-B':['C08'],'C20-B':['C17'],'C18-B':['C03'],'C02-A':[],'C07-B':['C11']}
 def one(d):
     sid=os.path.basename(d); prop=sid.split('-')[0]
     out={}
